@@ -11,6 +11,8 @@ computes provided the wrapper contracts hold (TRUSTED, listed under assumptions)
   R4  E.starts_with('c') / E.starts_with("lit")  -> vf_starts_with_char(E, 'c') / vf_starts_with_str(E, "lit")
   R5  E.rfind(C).and_then(|i| E.get(..i))        -> vf_before_last(&E, C)
   R6  E.to_string()                              -> vf_to_string(E)
+  R8  E.to_bits()                                -> vf_to_bits(E)                           (builder unit; f64 bit pattern as an uninterpreted view)
+  R7  if let Some(&X) = E {..}                   -> if let Some(X) = vf_copied(E) {..}      (builder unit; Verus has no ref patterns)
 """
 import re
 
@@ -139,6 +141,9 @@ class Rewriter:
                             fn = 'vf_starts_with_char' if lit.kind == 'char' else 'vf_starts_with_str'
                             return (i, close, '%s(%s, %s)' % (fn, recv, lit.text))
                         raise RsxError('unsupported construct: starts_with with a non-literal pattern')
+                    if meth == 'to_bits' and self.on('R8') and close == j + 4:
+                        self.stats['R8'] += 1
+                        return (i, close, 'vf_to_bits(%s)' % recv)
                     if meth == 'to_string' and self.on('R6') and close == j + 4:
                         self.stats['R6'] += 1
                         return (i, close, 'vf_to_string(%s)' % recv)
@@ -194,6 +199,23 @@ def apply_rules(src, fn, rules, edits, stats):
                     edits.append(Edit(toks[lo].start, toks[hi].end, 'vf_split(%s, %s)' % (recv, arg), 'R1'))
                     stats['R1'] += 1
                     skip.append((lo, hi))
+    # R7: `if let Some(&X) = E {`  (ref pattern on a Copy payload == Option::copied)
+    if rw.on('R7'):
+        i = fn.body_open + 1
+        while i < fn.body_close - 8:
+            if ([t.text for t in toks[i:i + 5]] == ['if', 'let', 'Some', '(', '&'] and toks[i + 5].kind == 'ident'
+                    and toks[i + 6].text == ')' and toks[i + 7].text == '='):
+                j = i + 8
+                while toks[j].text != '{':
+                    if toks[j].text in ('(', '['):
+                        j = match_close(toks, j)
+                    j += 1
+                edits.append(Edit(toks[i + 4].start, toks[i + 4].end, '', 'R7'))
+                edits.append(Edit(toks[i + 8].start, toks[i + 8].start, 'vf_copied(', 'R7'))
+                edits.append(Edit(toks[j - 1].end, toks[j - 1].end, ')', 'R7'))
+                stats['R7'] += 1
+                i = j
+            i += 1
     # the remaining rules: scan the body left to right
     i = fn.body_open + 1
     hi = fn.body_close - 1
